@@ -1,8 +1,10 @@
 (** C10 — reopening the store (in process or by a restart) at any positions of any history changes
-    nothing observable: the final disk and the sequence of (operation result, disk after it) — hence
-    every listing, id, metadata, seen flag, size, content and the visit walk — equal those of the history
-    without the reopens. The model has no state but the disk; that the real Store has none either is
-    what the C10 correspondence run checks. *)
+    nothing observable: the final disk and the sequence of observations — for every operation its result
+    and the disk after it (hence every listing, id, metadata, seen flag, size, content), and for every
+    VisitMailboxes walk ([IVisit], the retention scanner's view) exactly what it yields — equal those of
+    the history without the reopens. The model's walk reads the disk and nothing else, so it is
+    transparent by construction; that the real Store keeps nothing else either (e.g. no remembered
+    directory listing) is what the C10 correspondence run checks with its v / t operations. *)
 From IV Require Import Base.Bytes Model.FileDisk Proofs.FileDiskDurable.
 Theorem reopen_transparent : forall (enc : index -> str) (dec : str -> option index) (hash : str -> str) (cap : nat)
   (its : list item) (d : disk),
